@@ -1,7 +1,9 @@
 (* C03, end to end: the side conditions of Proofs/RealSeq2.v discharged for the TRANSLATED arrays of the
    package (Gen/Transition.v, Gen/Evolution.v) with the derivative tables of Proofs/CoefT.v, CoefE.v.
-   Diagonal entry H[v,v]: T in alpha or phi, Phi, E in tau, T1, T2 or g, P in tau or g, R in Re rT, rL or r0.
-   Mixed entry H[u,w]: any two such operators (or constants, shifts) driven by u resp. w, and TWO parameters
+   Diagonal entry H[v,v]: T in alpha or phi, Phi, E in tau, T1, T2 or g, P in tau or g, R in Re rT, rL or r0,
+   constants, shifts, and the operators without differentiable parameter SPOILER, RESET, PD(pd, reset), Wait.
+   Mixed entry H[u,w]: any two such operators (or constants, shifts, SPOILER, RESET, PD, Wait: the items of
+   RealSeq.real_item) driven by u resp. w, and TWO parameters
    of the SAME operator through the mixed tables: T (alpha, phi), E (T2, tau), (T1, tau), (g, tau), (T2, g),
    P (g, tau) -- in both assignments of the two variables.
    Ranks of the parameters as in the classes' PARAMETERS lists; for two parameters of one operator the flag sw of
@@ -130,7 +132,11 @@ Inductive real_item1 (x0 : R) : ritem1 -> Prop :=
 | r1_R_rT rT_im rL r0 c b : real_item1 x0 (dR_rT rT_im rL r0 c b)
 | r1_R_rL rT_re rT_im r0 c b : real_item1 x0 (dR_rL rT_re rT_im r0 c b)
 | r1_R_r0 rT_re rT_im rL c b : real_item1 x0 (dR_r0 rT_re rT_im rL c b)
-| r1_S d nm : real_item1 x0 (R1S d nm).
+| r1_S d nm : real_item1 x0 (R1S d nm)
+| r1_Spoiler : real_item1 x0 R1Spoil
+| r1_Reset : real_item1 x0 R1Reset
+| r1_PD pd reset : real_item1 x0 (R1PD pd reset)
+| r1_Wait : real_item1 x0 R1Wait.
 
 Lemma real_item1_ok x0 it : real_item1 x0 it -> item1_ok x0 it.
 Proof.
@@ -369,4 +375,38 @@ Lemma nv_items2_ok : List.Forall (real_item2 20 3) nv_items2.
 Proof.
   unfold nv_items2.
   repeat (apply Forall_cons; [first [constructor; lra|constructor; constructor; lra]|]). apply Forall_nil.
+Qed.
+
+(* ... and sequences in which SPOILER, PD(reset=True), PD(reset=False), RESET and Wait stand between the
+   differentiated operators (x0 = 20, resp. x0 = 20, y0 = 3) *)
+Definition nv_items1_plain : list ritem1 :=
+  [dT_alpha 2 30 10; dE_T2 5 1000 0 1 80; R1S 1 None; R1Spoil; dT_phi 60 (-1) 0; R1PD (RtoC 2) true;
+   dE_tau 1000 100 0 3 1; R1S 1 None; R1PD (RtoC (1/2)) false; dT_alpha 1 0 0; R1Wait; dE_T2 5 1000 0 1 80;
+   R1Reset; dT_alpha 2 30 10; dP_g 2 1 0; dE_T2 5 1000 0 1 80].
+Lemma nv_items1_plain_ok : List.Forall (real_item1 20) nv_items1_plain.
+Proof.
+  unfold nv_items1_plain.
+  repeat (apply Forall_cons; [constructor; lra|]). apply Forall_nil.
+Qed.
+
+Definition nv_items2_plain : list ritem2 :=
+  [mT_alpha_phi 1 30 2 0; mE_T2_tau 1000 0 2 60 1 5; IX (RS 1 None); IX RSpoil; IY (iT_phi 60 1 0);
+   IY (RPD (RtoC 2) true); IX (iE_T2 5 1000 0 1 90); IX (RS 1 None); IX (RPD (RtoC (1/2)) false);
+   mT_alpha_phi 1 30 2 0; IY RWait; mE_T2_tau 1000 0 2 60 1 5; IX RReset; mT_alpha_phi 1 30 2 0;
+   mP_tau_g 1 0 1 1; IY (iE_T2 5 1000 0 1 90)].
+Lemma nv_items2_plain_ok : List.Forall (real_item2 20 3) nv_items2_plain.
+Proof.
+  unfold nv_items2_plain.
+  repeat (apply Forall_cons; [first [constructor; lra|constructor; constructor; lra]|]). apply Forall_nil.
+Qed.
+
+Lemma nv_items_plain_ok :
+  List.Forall (real_item1 20) nv_items1_plain /\ List.Forall (real_item2 20 3) nv_items2_plain /\
+  In R1Spoil nv_items1_plain /\ In R1Reset nv_items1_plain /\ In R1Wait nv_items1_plain /\
+  In (R1PD (RtoC 2) true) nv_items1_plain /\ In (R1PD (RtoC (1/2)) false) nv_items1_plain /\
+  In (IX RSpoil) nv_items2_plain /\ In (IX RReset) nv_items2_plain /\ In (IY RWait) nv_items2_plain /\
+  In (IY (RPD (RtoC 2) true)) nv_items2_plain /\ In (IX (RPD (RtoC (1/2)) false)) nv_items2_plain.
+Proof.
+  split; [exact nv_items1_plain_ok|]. split; [exact nv_items2_plain_ok|].
+  unfold nv_items1_plain, nv_items2_plain. cbn [In]. tauto.
 Qed.
